@@ -141,13 +141,16 @@ TF_CLASSES = ["BeckeRTransform", "LinearFiniteRTransform", "IdentityRTransform",
               "HandyModRTransform", "Inverse"]
 
 
-def sample_transform(rng, cname):
-    """(transform spec, (lo, hi) interval of x values to pose the problem on)"""
+def sample_transform(rng, cname, npts=2):
+    """(transform spec, (lo, hi) interval of x values to pose the problem on); npts: largest array the transform will be applied to
+    (HyperbolicRTransform is only defined for b * (npts - 1) < 1)"""
     if cname == "Inverse":
         rmin, R = rng.choice([0.0, 0.125, 1.5]), dq(rng, 0.5, 3)
         lo = rmin + dq(rng, 0.25, 1.0)
         return ("Inverse", ("BeckeRTransform", (("rmin", rmin), ("R", R)))), (lo, lo + dq(rng, 0.5, 1.5))
     p, (lo, hi), _ = c03.sample_params(cname, rng)
+    if cname == "HyperbolicRTransform" and p["b"] * (npts - 1) >= 0.9:
+        p["b"] = dq(rng, 0.3, 0.85, 6) / (npts - 1)
     if "k" in p:
         p["k"] = rng.choice([1, 2, 3])
     if "m" in p:
@@ -159,7 +162,7 @@ def sample_transform(rng, cname):
         iv = (a, min(0.75, a + dq(rng, 0.4, 1.0)))
     elif cname == "HyperbolicRTransform":
         top = 0.6 / p["b"]
-        a = dq(rng, 0.05, 0.3) * top
+        a = dq(rng, 0.05, 0.3) * min(top, 8.0)
         iv = (a, min(top, a + dq(rng, 0.4, 1.0)))
     else:
         a = dq(rng, 0.25, 2.0)
@@ -189,7 +192,7 @@ def sample_sol(rng):
 
 
 def spec_desc(s):
-    return (f"{s['problem']} order={s['order']} coeffs={s['coeffs']}{' (ndarray)' if s.get('as_array') else ''} solution={s['sol']} "
+    return (f"{s['problem']} order={s['order']}{' (x_span as np.float64)' if s.get('np_span') else ''} coeffs={s['coeffs']}{' (ndarray)' if s.get('as_array') else ''} solution={s['sol']} "
             f"transform={tf_desc(s['tf'])} x in {s['span']}" + (f" method={s['method']}" if s["problem"] == "ivp" else f" bd={s['bd']}"))
 
 
@@ -212,7 +215,8 @@ def run_ivp(spec, tfs):
     K = spec["order"]
     x0, x1 = spec["span"]
     y0 = [float(sol.d(k, x0)) for k in range(K)]
-    out = call_quiet(GO.solve_ode_ivp, (x0, x1), fx, coeffs, y0, make_transform(tfs), method=spec["method"], rtol=IVP_RTOL, atol=IVP_ATOL)
+    span = (np.float64(x0), np.float64(x1)) if spec.get("np_span") else (x0, x1)
+    out = call_quiet(GO.solve_ode_ivp, span, fx, coeffs, y0, make_transform(tfs), method=spec["method"], rtol=IVP_RTOL, atol=IVP_ATOL)
     xs = np.linspace(x0, x1, 9)
     return np.asarray(call_quiet(out, xs), dtype=float).reshape(K, -1), xs
 
@@ -373,10 +377,30 @@ def corpus_checks(ctx: Ctx):
                  f"jet w.r.t. the TRANSFORMED variable instead of y(x)); exact [y, y'](0.25) = {exact}",
                  {"reproduce": "sol = solve_ode_ivp((-0.5,0.5), fx, [1.0,0.5,2.0], y0, BeckeRTransform(0.125, 2.0), no_derivatives=...); sol(0.25)",
                   "expected": exact})
-    return implicit_ok
+    # plain Python floats as x_span with the transforms whose derivative methods only accept arrays
+    float_span_ok = True
+    for cname, tfs in (("LinearInfiniteRTransform", ("LinearInfiniteRTransform", (("rmin", 1.0), ("rmax", 9.0), ("b", 8.0)))),
+                       ("HyperbolicRTransform", ("HyperbolicRTransform", (("a", 2.0), ("b", 0.25))))):
+        spec = dict(CORPUS_SCALAR, tf=tfs, span=(0.5, 1.5))
+        ctx.case(("corpus", "float_span", cname))
+        try:
+            v, xs = run_ivp(spec, tfs)
+            _, _, sol = build(spec)
+            ok, obs = relerr(v[0], sol.d(0, xs)) <= IVP_TOL, "inaccurate"
+        except Exception as e:  # noqa: BLE001
+            ok, obs = False, type(e).__name__ + ": " + str(e)[:90]
+        if not ok:
+            float_span_ok = False
+            if cname == "LinearInfiniteRTransform":  # HyperbolicRTransform fails in the same way; one record
+                ctx.fail("sweep_float_span", "solve_ode_ivp((0.5, 1.5), fx, [1.0, 0.5, 2.0], y0, LinearInfiniteRTransform(1.0, 9.0, 8.0))", obs,
+                         f"solve_ode_ivp with x_span given as Python floats fails with LinearInfiniteRTransform and HyperbolicRTransform ({obs}): the initial data are converted "
+                         "with transform.deriv(x_span[0]) on a bare float, which these two classes do not accept (np.float64 end points work)",
+                         {"reproduce": "solve_ode_ivp((0.5, 1.5), fx, [1.0, 0.5, 2.0], [y(0.5), y'(0.5)], LinearInfiniteRTransform(1.0, 9.0, 8.0))",
+                          "expected": "the same solution as without the transform"})
+    return implicit_ok, float_span_ok
 
 
-def sweep(ctx: Ctx, implicit_ok: bool):
+def sweep(ctx: Ctx, implicit_ok: bool, float_span_ok: bool):
     rng = ctx.rng
     results = []
     plan = []
@@ -385,8 +409,8 @@ def sweep(ctx: Ctx, implicit_ok: bool):
     classes = list(TF_CLASSES)
     methods = ["RK45", "RK23", "DOP853", "LSODA"]
     for it in range(n_ivp):
-        order = 1 + it % 3
-        cname = classes[it % len(classes)] if it % 5 else None
+        order = 1 + (it + it // len(classes)) % 3
+        cname = classes[it % len(classes)] if it % 13 != 12 else None
         if cname:
             tfs, iv = sample_transform(rng, cname)
         else:
@@ -396,6 +420,8 @@ def sweep(ctx: Ctx, implicit_ok: bool):
         m = rng.choice(methods + (["Radau", "BDF"] if (order == 1 or implicit_ok) else []))
         spec = {"problem": "ivp", "order": order, "coeffs": sample_coeffs(rng, order, rng.choice(["const", "var", "mixed"])), "sol": sample_sol(rng),
                 "tf": tfs, "span": tuple(float(v) for v in span), "method": m}
+        if cname in ("LinearInfiniteRTransform", "HyperbolicRTransform") and not float_span_ok:
+            spec["np_span"] = True  # work around the listed finding so that these transforms are still exercised
         if all(c[0] in ("c", "i") for c in spec["coeffs"]) and rng.random() < 0.4:
             spec["as_array"] = True
         plan.append(spec)
@@ -403,10 +429,10 @@ def sweep(ctx: Ctx, implicit_ok: bool):
     nb = 0
     while nb < n_bvp and tries < 6 * n_bvp:
         tries += 1
-        order = 1 + tries % 3
-        cname = classes[tries % len(classes)] if tries % 4 else None
+        order = 1 + (tries + tries // len(classes)) % 3
+        cname = classes[tries % len(classes)] if tries % 13 != 12 else None
         if cname:
-            tfs, iv = sample_transform(rng, cname)
+            tfs, iv = sample_transform(rng, cname, npts=41)
         else:
             tfs, a = None, dq(rng, -1, 1)
             iv = (a, a + dq(rng, 0.5, 1.5))
@@ -800,8 +826,8 @@ def run(ctx: Ctx):
         ctx.copy_coq("C03/C03_proofs_simple.v", "C03/C03_proofs_knowles.v")
         status = ctx.coq_build()
         ctx.register_props(status)
-    implicit_ok = corpus_checks(ctx)
-    results = sweep(ctx, implicit_ok)
+    implicit_ok, float_span_ok = corpus_checks(ctx)
+    results = sweep(ctx, implicit_ok, float_span_ok)
     # per check kind only the first failing input is reported; failing theorems get the matching witness
     first = {}
     for kind, obs, exp, variant, spec in results:
